@@ -44,6 +44,9 @@ def step (s : DSt) (ts : List String) : DSt × String :=
       let r := txsToCommit s.view sl cl
       (s, s!"{showNatList (r.out.map (·.id))} size={r.size} cycles={r.cycles}")
     | _, _ => (s, "bad-op")
+  | op :: _ =>
+    -- scenario ops act on the real node only; their effect reaches the model through the dumps
+    if ["cfg", "submit", "wait", "template", "mine", "fork", "uncle"].contains op then (s, "ok") else (s, "bad-op")
   | _ => (s, "bad-op")
 
 def main (_args : List String) : IO UInt32 := runLines ({} : DSt) step
